@@ -280,7 +280,28 @@ def compare(case, obs, exp, hang=None):
                     asis.append("prefix %d byte counts: impl %s spec %s" % (n, json.dumps(oc["parse"]), json.dumps(epp)))
             if bool(oc["hdr"].get("ok")) != ec["hdr"]:
                 must.append((["C17"], "header decoder on a %d-byte prefix: impl %s spec ok=%s" % (n, json.dumps(oc["hdr"]), ec["hdr"])))
+    for ec, oc in zip(exp.get("cutlist") or [], obs.get("cutlist") or []):
+        n = ec["n"]
+        epp = {k: v for k, v in ec["parse"].items() if k != "exact"}
+        if oc["parse"] != epp:
+            must.append((["C17"], "prefix of %d/%d bytes: impl %s spec %s" % (n, len(case["bytes"]), json.dumps(oc["parse"]), json.dumps(epp))))
+        if bool(oc["hdr"].get("ok")) != ec["hdr"]:
+            must.append((["C17"], "header decoder on a %d-byte prefix: impl %s spec ok=%s" % (n, json.dumps(oc["hdr"]), ec["hdr"])))
     return must, asis
+
+
+def huge_messages(rng, n=4):
+    """messages around the 16-bit length boundary: one raw attribute filling the body (assembled from the layout
+    the specification uses: 20-byte header, 4-byte TLV header; judged by the specification like any other buffer)"""
+    out = []
+    for total in [65552, 65548, 65536, 65532, 65528][:n]:
+        vlen = total - 24
+        ty = rng.choice([0x7f01, 0xff01, 0x8022])
+        body = [ty >> 8, ty & 255, vlen >> 8, vlen & 255] + [rng.randrange(256) for _ in range(vlen)]
+        hdr = [0, 1, (total - 20) >> 8, (total - 20) & 255, 0x21, 0x12, 0xa4, 0x42] + [rng.randrange(256) for _ in range(12)]
+        out.append({"bytes": hdr + body, "src": "huge message of %d bytes" % total,
+                    "cutlist": [0, 1, 19, 20, 21, 24, 1000, 65535, total - 4, total - 1]})
+    return out
 
 
 def has_fp(case):
@@ -458,6 +479,7 @@ def c17(rep, tier, seed, wd):
     allc = cases + gcs
     for c in allc:
         c["cuts"] = True
+    allc += huge_messages(random.Random(seed), 3 if tier == "quick" else 5)
     triples = run_pipeline(allc, wd, "c17", trace=False, chunk=1500)
     report_must(rep, "C17", triples, "case")
     ncuts = sum(len(e.get("cuts", [])) for (_c, o, e, _h) in triples)
